@@ -106,7 +106,7 @@ def last_is_ctrl_word(sep):
 
 
 CONTEXTS = ['top', 'unkarg', 'userarg', 'footnote', 'item', 'heading', 'cell', 'unkenv', 'declarg', 'first', 'last',
-            'group', 'straddle_declarg', 'straddle_unkarg', 'straddle_userarg', 'straddle_ctrl']
+            'group', 'straddle_declarg', 'straddle_unkarg', 'straddle_userarg', 'straddle_ctrl', 'twicearg']
 
 
 def embed(rnd, ctx, wa, sep, wb, haspar):
@@ -126,6 +126,9 @@ def embed(rnd, ctx, wa, sep, wb, haspar):
         return pre + '{' + core_ + '}' + post
     if ctx == 'userarg':
         return '\\newcommand{\\ym}[1]{yb #1 ye}\n' + pre + '\\ym{' + core_ + '}' + post
+    if ctx == 'twicearg':
+        # the argument is used twice by the macro: both copies are made of the same tokens
+        return '\\newcommand{\\ytw}[1]{#1 ytwmid #1}\n' + pre + '\\ytw{' + core_ + '}' + post
     if ctx == 'declarg':
         return pre + rnd.choice(['\\textcolor{hcQ}{', '\\href{huQ}{', '\\LTadd{', '\\framebox{']) + core_ + '}' + post
     if ctx == 'footnote':
